@@ -901,6 +901,12 @@ func (self *Pipestance) Lock() error {
 }
 
 func (self *Pipestance) unlock() {
+	if self.readOnly() {
+		// This pipestance does not hold the lock (it was attached read-only,
+		// or has already given it up).  If there is a lock file, it belongs
+		// to another mrp.
+		return
+	}
 	if err := self.metadata.remove(Lock); err != nil {
 		util.LogError(err, "runtime", "Error removing pipestance lock file.")
 	}
